@@ -325,7 +325,11 @@ impl Gen {
             props.push(Prop::ServerKeepAlive(*k));
         }
         if rng.chance(p.assigned_id_pct, 100) {
-            props.push(Prop::AssignedClientId(rand_string(rng, 16)));
+            // (a broker may repeat the identifier it assigned earlier)
+            match &v.world.session.assigned_id {
+                Some(id) if rng.chance(1, 2) => props.push(Prop::AssignedClientId(id.clone())),
+                _ => props.push(Prop::AssignedClientId(rand_string(rng, 16))),
+            }
         }
         if rng.chance(p.extra_connack_props_pct, 100) {
             props.push(Prop::TopicAliasMaximum(rng.below(10) as u16));
